@@ -196,8 +196,8 @@ Theorem rng_weighted_sample_in_range : forall fuel ws st i st', RNG_Proofs.wf st
 Proof. exact RNG_Props.weighted_sample_in_range. Qed.
 Print Assumptions rng_weighted_sample_in_range.
 
-Theorem rng_weighted_sample_f_in_range : forall ws st i st', RNG_Proofs.wf st ->
-  RNG_Model.weighted_sample_f ws st = inr (i, st') -> (i < length ws) /\ RNG_Proofs.wf st'.
+Theorem rng_weighted_sample_f_in_range : forall ws st i total st', RNG_Proofs.wf st ->
+  RNG_Model.weighted_sample_f ws st = inr (i, total, st') -> (i < length ws) /\ RNG_Proofs.wf st'.
 Proof. exact RNG_Props.weighted_sample_f_in_range. Qed.
 Print Assumptions rng_weighted_sample_f_in_range.
 
